@@ -40,6 +40,7 @@ type Stats struct {
 	Errors      int64
 	SolverNanos int64
 	Resets      int64
+	OneShot     int64
 }
 
 func (s *Stats) Add(o *Stats) {
@@ -52,6 +53,7 @@ func (s *Stats) Add(o *Stats) {
 	s.Errors += o.Errors
 	s.SolverNanos += o.SolverNanos
 	s.Resets += o.Resets
+	s.OneShot += o.OneShot
 }
 
 type Solver struct {
@@ -68,6 +70,88 @@ type Solver struct {
 	Portfolio bool
 	seq       int
 	LastError string
+	one       *oneShot // lazily started non-incremental context for FP queries
+	scopeFP   bool
+}
+
+// oneShot is a second z3 process used with (reset) before every query: a fresh context gets
+// z3's tactic-based solver, which decides floating-point queries that the incremental core
+// does not finish.
+type oneShot struct {
+	cmd *exec.Cmd
+	in  io.WriteCloser
+	out *bufio.Reader
+	seq int
+}
+
+func (s *Solver) oneShotCheck(extra []*sym.Term, want []*sym.Term) (Result, Model) {
+	if s.one == nil {
+		o := &oneShot{}
+		o.cmd = exec.Command("z3", "-in", "-smt2")
+		var err error
+		o.in, err = o.cmd.StdinPipe()
+		if err != nil {
+			return Unknown, nil
+		}
+		op, err := o.cmd.StdoutPipe()
+		if err != nil {
+			return Unknown, nil
+		}
+		o.cmd.Stderr = o.cmd.Stdout
+		o.out = bufio.NewReaderSize(op, 1<<16)
+		if err := o.cmd.Start(); err != nil {
+			return Unknown, nil
+		}
+		s.one = o
+	}
+	o := s.one
+	o.seq++
+	mark := fmt.Sprintf("<<o%d>>", o.seq)
+	script := "(reset)\n(set-option :timeout " + strconv.Itoa(s.TimeoutMs*2) + ")\n" + s.Standalone(extra, want) + "(echo \"" + mark + "\")\n"
+	if _, err := io.WriteString(o.in, script); err != nil {
+		s.one = nil
+		return Unknown, nil
+	}
+	var lines []string
+	for {
+		ln, err := o.out.ReadString('\n')
+		if err != nil {
+			s.one = nil
+			return Unknown, nil
+		}
+		ln = strings.TrimRight(ln, "\r\n")
+		if ln == mark || ln == "\""+mark+"\"" {
+			break
+		}
+		lines = append(lines, ln)
+	}
+	if len(lines) == 0 {
+		return Unknown, nil
+	}
+	for _, ln := range lines {
+		if strings.Contains(ln, "(error") {
+			// get-value after unsat prints an error: only fatal if the verdict line is missing
+			if lines[0] != "unsat" {
+				s.Stats.Errors++
+				s.LastError = ln
+				return Unknown, nil
+			}
+		}
+	}
+	switch lines[0] {
+	case "unsat":
+		return Unsat, nil
+	case "sat":
+		if len(want) == 0 {
+			return Sat, nil
+		}
+		m := parseValues(strings.Join(lines[1:], " "), want)
+		if m == nil {
+			return Unknown, nil
+		}
+		return Sat, m
+	}
+	return Unknown, nil
 }
 
 var solverSeq int64
@@ -109,6 +193,12 @@ func (s *Solver) Close() {
 		s.cmd.Process.Kill()
 		s.cmd.Wait()
 		s.cmd = nil
+	}
+	if s.one != nil {
+		s.one.in.Close()
+		s.one.cmd.Process.Kill()
+		s.one.cmd.Wait()
+		s.one = nil
 	}
 }
 
@@ -158,6 +248,7 @@ func (s *Solver) BeginPath() {
 	sb.WriteString("(push 1)\n")
 	s.inScope = true
 	s.scope = s.scope[:0]
+	s.scopeFP = false
 	s.send(sb.String())
 }
 
@@ -167,6 +258,9 @@ func (s *Solver) Assert(t *sym.Term) {
 	r := s.pr.Define(&sb, t)
 	fmt.Fprintf(&sb, "(assert %s)\n", r)
 	s.scope = append(s.scope, t)
+	if t.HasFP {
+		s.scopeFP = true
+	}
 	s.send(sb.String())
 }
 
@@ -187,6 +281,33 @@ func (s *Solver) Check(extra []*sym.Term, want []*sym.Term) (Result, Model) {
 	t0 := time.Now()
 	defer func() { s.Stats.SolverNanos += int64(time.Since(t0)) }()
 	s.Stats.Queries++
+	fp := s.scopeFP
+	for _, e := range extra {
+		if e.HasFP {
+			fp = true
+		}
+	}
+	if fp {
+		res, model := s.oneShotCheck(extra, want)
+		s.Stats.OneShot++
+		if res == Unknown && s.Portfolio {
+			s.Stats.Escalated++
+			r2, m2 := s.escalate(extra, want)
+			if r2 != Unknown {
+				s.Stats.EscDecided++
+				res, model = r2, m2
+			}
+		}
+		switch res {
+		case Sat:
+			s.Stats.Sat++
+		case Unsat:
+			s.Stats.Unsat++
+		default:
+			s.Stats.Unknown++
+		}
+		return res, model
+	}
 	var sb strings.Builder
 	refs := make([]string, len(extra))
 	for i, e := range extra {
@@ -489,7 +610,9 @@ func (s *Solver) escalate(extra []*sym.Term, want []*sym.Term) (Result, Model) {
 	if err := os.WriteFile(f, []byte("(set-logic ALL)\n(set-option :produce-models true)\n"+script), 0o644); err != nil {
 		return Unknown, nil
 	}
-	defer os.Remove(f)
+	if os.Getenv("SYMX_KEEP_ESC") == "" {
+		defer os.Remove(f)
+	}
 	type ans struct {
 		r Result
 		m Model
